@@ -502,6 +502,48 @@ Qed.
 
 (* ==== PART 2: per-site and per-chain lemmas (generated by `python3 -m checks.C11 --regen`) ==== *)
 
+Lemma up_closed_fill_var_rec : up_closed link_sites "fill_var_rec" (up_set "fill_var_rec") = true.
+Proof. vm_compute. reflexivity. Qed.
+Lemma no_bad_link_above_fill_var_rec :
+  forallb (fun l => negb (str_mem (s_callee l) (up_set "fill_var_rec")) || negb (str_mem (s_id l) bad_link_ids)) link_sites = true.
+Proof. vm_compute. reflexivity. Qed.
+
+Lemma up_closed_fillerup_aggregate : up_closed link_sites "fillerup_aggregate" (up_set "fillerup_aggregate") = true.
+Proof. vm_compute. reflexivity. Qed.
+Lemma no_bad_link_above_fillerup_aggregate :
+  forallb (fun l => negb (str_mem (s_callee l) (up_set "fillerup_aggregate")) || negb (str_mem (s_id l) bad_link_ids)) link_sites = true.
+Proof. vm_compute. reflexivity. Qed.
+
+Lemma up_closed_hdr_fetch : up_closed link_sites "hdr_fetch" (up_set "hdr_fetch") = true.
+Proof. vm_compute. reflexivity. Qed.
+
+Lemma up_closed_move_file_block : up_closed link_sites "move_file_block" (up_set "move_file_block") = true.
+Proof. vm_compute. reflexivity. Qed.
+Lemma no_bad_link_above_move_file_block :
+  forallb (fun l => negb (str_mem (s_callee l) (up_set "move_file_block")) || negb (str_mem (s_id l) bad_link_ids)) link_sites = true.
+Proof. vm_compute. reflexivity. Qed.
+
+Lemma up_closed_ncmpio_getput_zero_req : up_closed link_sites "ncmpio_getput_zero_req" (up_set "ncmpio_getput_zero_req") = true.
+Proof. vm_compute. reflexivity. Qed.
+
+Lemma up_closed_ncmpio_read_write : up_closed link_sites "ncmpio_read_write" (up_set "ncmpio_read_write") = true.
+Proof. vm_compute. reflexivity. Qed.
+
+Lemma up_closed_ncmpio_write_header : up_closed link_sites "ncmpio_write_header" (up_set "ncmpio_write_header") = true.
+Proof. vm_compute. reflexivity. Qed.
+Lemma no_bad_link_above_ncmpio_write_header :
+  forallb (fun l => negb (str_mem (s_callee l) (up_set "ncmpio_write_header")) || negb (str_mem (s_id l) bad_link_ids)) link_sites = true.
+Proof. vm_compute. reflexivity. Qed.
+
+Lemma up_closed_ncmpio_write_numrecs : up_closed link_sites "ncmpio_write_numrecs" (up_set "ncmpio_write_numrecs") = true.
+Proof. vm_compute. reflexivity. Qed.
+
+Lemma up_closed_write_NC : up_closed link_sites "write_NC" (up_set "write_NC") = true.
+Proof. vm_compute. reflexivity. Qed.
+Lemma no_bad_link_above_write_NC :
+  forallb (fun l => negb (str_mem (s_callee l) (up_set "write_NC")) || negb (str_mem (s_id l) bad_link_ids)) link_sites = true.
+Proof. vm_compute. reflexivity. Qed.
+
 Lemma nsd_move_file_block__MPI_File_read_at_all_refuted : ~ no_silent_drop link_sites (site_of "ncmpio_enddef.c:move_file_block:MPI_File_read_at_all" io_sites).
 Proof. apply (refute_by_class (site_of "ncmpio_enddef.c:move_file_block:MPI_File_read_at_all" io_sites) E_NO_SPACE). vm_compute. reflexivity. Qed.
 
@@ -509,7 +551,9 @@ Lemma nsd_move_file_block__MPI_File_read_at_all_drops : drops_classes (site_of "
 Proof. apply drops_classes_intro; vm_compute; reflexivity. Qed.
 
 Lemma nsd_move_file_block__MPI_File_read_at_all_partial : no_silent_drop_except link_sites (site_of "ncmpio_enddef.c:move_file_block:MPI_File_read_at_all" io_sites) [E_ACCESS; E_AMODE; E_BAD_FILE; E_FILE_EXISTS; E_NOT_SAME; E_NO_SPACE; E_NO_SUCH_FILE; E_QUOTA; E_READ_ONLY] [].
-Proof. apply (no_silent_drop_except_nolinks_intro _ _ (reach_up link_sites (s_func (site_of "ncmpio_enddef.c:move_file_block:MPI_File_read_at_all" io_sites)))); vm_compute; reflexivity. Qed.
+Proof.
+  apply (no_silent_drop_except_nolinks_intro (site_of "ncmpio_enddef.c:move_file_block:MPI_File_read_at_all" io_sites) [E_ACCESS; E_AMODE; E_BAD_FILE; E_FILE_EXISTS; E_NOT_SAME; E_NO_SPACE; E_NO_SUCH_FILE; E_QUOTA; E_READ_ONLY] (up_set "move_file_block")); [vm_compute; reflexivity | exact up_closed_move_file_block | exact no_bad_link_above_move_file_block].
+Qed.
 
 Lemma nsd_move_file_block__MPI_File_write_at_all_refuted : ~ no_silent_drop link_sites (site_of "ncmpio_enddef.c:move_file_block:MPI_File_write_at_all" io_sites).
 Proof. apply (refute_by_class (site_of "ncmpio_enddef.c:move_file_block:MPI_File_write_at_all" io_sites) E_NO_SPACE). vm_compute. reflexivity. Qed.
@@ -518,7 +562,9 @@ Lemma nsd_move_file_block__MPI_File_write_at_all_drops : drops_classes (site_of 
 Proof. apply drops_classes_intro; vm_compute; reflexivity. Qed.
 
 Lemma nsd_move_file_block__MPI_File_write_at_all_partial : no_silent_drop_except link_sites (site_of "ncmpio_enddef.c:move_file_block:MPI_File_write_at_all" io_sites) [E_ACCESS; E_AMODE; E_BAD_FILE; E_FILE_EXISTS; E_NOT_SAME; E_NO_SPACE; E_NO_SUCH_FILE; E_QUOTA; E_READ_ONLY] [].
-Proof. apply (no_silent_drop_except_nolinks_intro _ _ (reach_up link_sites (s_func (site_of "ncmpio_enddef.c:move_file_block:MPI_File_write_at_all" io_sites)))); vm_compute; reflexivity. Qed.
+Proof.
+  apply (no_silent_drop_except_nolinks_intro (site_of "ncmpio_enddef.c:move_file_block:MPI_File_write_at_all" io_sites) [E_ACCESS; E_AMODE; E_BAD_FILE; E_FILE_EXISTS; E_NOT_SAME; E_NO_SPACE; E_NO_SUCH_FILE; E_QUOTA; E_READ_ONLY] (up_set "move_file_block")); [vm_compute; reflexivity | exact up_closed_move_file_block | exact no_bad_link_above_move_file_block].
+Qed.
 
 Lemma nsd_move_file_block__MPI_File_write_at_refuted : ~ no_silent_drop link_sites (site_of "ncmpio_enddef.c:move_file_block:MPI_File_write_at" io_sites).
 Proof. apply (refute_by_class (site_of "ncmpio_enddef.c:move_file_block:MPI_File_write_at" io_sites) E_NO_SPACE). vm_compute. reflexivity. Qed.
@@ -527,7 +573,9 @@ Lemma nsd_move_file_block__MPI_File_write_at_drops : drops_classes (site_of "ncm
 Proof. apply drops_classes_intro; vm_compute; reflexivity. Qed.
 
 Lemma nsd_move_file_block__MPI_File_write_at_partial : no_silent_drop_except link_sites (site_of "ncmpio_enddef.c:move_file_block:MPI_File_write_at" io_sites) [E_ACCESS; E_AMODE; E_BAD_FILE; E_FILE_EXISTS; E_NOT_SAME; E_NO_SPACE; E_NO_SUCH_FILE; E_QUOTA; E_READ_ONLY] [].
-Proof. apply (no_silent_drop_except_nolinks_intro _ _ (reach_up link_sites (s_func (site_of "ncmpio_enddef.c:move_file_block:MPI_File_write_at" io_sites)))); vm_compute; reflexivity. Qed.
+Proof.
+  apply (no_silent_drop_except_nolinks_intro (site_of "ncmpio_enddef.c:move_file_block:MPI_File_write_at" io_sites) [E_ACCESS; E_AMODE; E_BAD_FILE; E_FILE_EXISTS; E_NOT_SAME; E_NO_SPACE; E_NO_SUCH_FILE; E_QUOTA; E_READ_ONLY] (up_set "move_file_block")); [vm_compute; reflexivity | exact up_closed_move_file_block | exact no_bad_link_above_move_file_block].
+Qed.
 
 Lemma nsd_write_NC__MPI_File_write_at_all_1_refuted : ~ no_silent_drop link_sites (site_of "ncmpio_enddef.c:write_NC:MPI_File_write_at_all#1" io_sites).
 Proof. apply (refute_by_class (site_of "ncmpio_enddef.c:write_NC:MPI_File_write_at_all#1" io_sites) E_NO_SPACE). vm_compute. reflexivity. Qed.
@@ -536,7 +584,9 @@ Lemma nsd_write_NC__MPI_File_write_at_all_1_drops : drops_classes (site_of "ncmp
 Proof. apply drops_classes_intro; vm_compute; reflexivity. Qed.
 
 Lemma nsd_write_NC__MPI_File_write_at_all_1_partial : no_silent_drop_except link_sites (site_of "ncmpio_enddef.c:write_NC:MPI_File_write_at_all#1" io_sites) [E_ACCESS; E_AMODE; E_BAD_FILE; E_FILE_EXISTS; E_NOT_SAME; E_NO_SPACE; E_NO_SUCH_FILE; E_QUOTA; E_READ_ONLY] [].
-Proof. apply (no_silent_drop_except_nolinks_intro _ _ (reach_up link_sites (s_func (site_of "ncmpio_enddef.c:write_NC:MPI_File_write_at_all#1" io_sites)))); vm_compute; reflexivity. Qed.
+Proof.
+  apply (no_silent_drop_except_nolinks_intro (site_of "ncmpio_enddef.c:write_NC:MPI_File_write_at_all#1" io_sites) [E_ACCESS; E_AMODE; E_BAD_FILE; E_FILE_EXISTS; E_NOT_SAME; E_NO_SPACE; E_NO_SUCH_FILE; E_QUOTA; E_READ_ONLY] (up_set "write_NC")); [vm_compute; reflexivity | exact up_closed_write_NC | exact no_bad_link_above_write_NC].
+Qed.
 
 Lemma nsd_write_NC__MPI_File_write_at_refuted : ~ no_silent_drop link_sites (site_of "ncmpio_enddef.c:write_NC:MPI_File_write_at" io_sites).
 Proof. apply (refute_by_class (site_of "ncmpio_enddef.c:write_NC:MPI_File_write_at" io_sites) E_NO_SPACE). vm_compute. reflexivity. Qed.
@@ -545,7 +595,9 @@ Lemma nsd_write_NC__MPI_File_write_at_drops : drops_classes (site_of "ncmpio_end
 Proof. apply drops_classes_intro; vm_compute; reflexivity. Qed.
 
 Lemma nsd_write_NC__MPI_File_write_at_partial : no_silent_drop_except link_sites (site_of "ncmpio_enddef.c:write_NC:MPI_File_write_at" io_sites) [E_ACCESS; E_AMODE; E_BAD_FILE; E_FILE_EXISTS; E_NOT_SAME; E_NO_SPACE; E_NO_SUCH_FILE; E_QUOTA; E_READ_ONLY] [].
-Proof. apply (no_silent_drop_except_nolinks_intro _ _ (reach_up link_sites (s_func (site_of "ncmpio_enddef.c:write_NC:MPI_File_write_at" io_sites)))); vm_compute; reflexivity. Qed.
+Proof.
+  apply (no_silent_drop_except_nolinks_intro (site_of "ncmpio_enddef.c:write_NC:MPI_File_write_at" io_sites) [E_ACCESS; E_AMODE; E_BAD_FILE; E_FILE_EXISTS; E_NOT_SAME; E_NO_SPACE; E_NO_SUCH_FILE; E_QUOTA; E_READ_ONLY] (up_set "write_NC")); [vm_compute; reflexivity | exact up_closed_write_NC | exact no_bad_link_above_write_NC].
+Qed.
 
 Lemma nsd_write_NC__MPI_File_write_at_all_2_refuted : ~ no_silent_drop link_sites (site_of "ncmpio_enddef.c:write_NC:MPI_File_write_at_all#2" io_sites).
 Proof. apply (refute_by_class (site_of "ncmpio_enddef.c:write_NC:MPI_File_write_at_all#2" io_sites) E_NO_SPACE). vm_compute. reflexivity. Qed.
@@ -554,7 +606,9 @@ Lemma nsd_write_NC__MPI_File_write_at_all_2_drops : drops_classes (site_of "ncmp
 Proof. apply drops_classes_intro; vm_compute; reflexivity. Qed.
 
 Lemma nsd_write_NC__MPI_File_write_at_all_2_partial : no_silent_drop_except link_sites (site_of "ncmpio_enddef.c:write_NC:MPI_File_write_at_all#2" io_sites) [E_BUFFER; E_COUNT; E_TYPE; E_TAG; E_COMM; E_RANK; E_REQUEST; E_ROOT; E_GROUP; E_OP; E_TOPOLOGY; E_DIMS; E_ARG; E_UNKNOWN; E_TRUNCATE; E_OTHER; E_INTERN; E_IN_STATUS; E_PENDING; E_ACCESS; E_AMODE; E_ASSERT; E_BAD_FILE; E_BASE; E_CONVERSION; E_DISP; E_DUP_DATAREP; E_FILE_EXISTS; E_FILE_IN_USE; E_FILE; E_INFO_KEY; E_INFO_NOKEY; E_INFO_VALUE; E_INFO; E_IO; E_KEYVAL; E_LOCKTYPE; E_NAME; E_NO_MEM; E_NOT_SAME; E_NO_SPACE; E_NO_SUCH_FILE; E_PORT; E_QUOTA; E_READ_ONLY; E_RMA_CONFLICT; E_RMA_SYNC; E_SERVICE; E_SIZE; E_SPAWN; E_UNSUPPORTED_DATAREP; E_UNSUPPORTED_OPERATION; E_WIN; E_RMA_RANGE; E_RMA_ATTACH; E_RMA_FLAVOR; E_RMA_SHARED; E_ANY_OTHER_CLASS] [].
-Proof. apply (no_silent_drop_except_nolinks_intro _ _ (reach_up link_sites (s_func (site_of "ncmpio_enddef.c:write_NC:MPI_File_write_at_all#2" io_sites)))); vm_compute; reflexivity. Qed.
+Proof.
+  apply (no_silent_drop_except_nolinks_intro (site_of "ncmpio_enddef.c:write_NC:MPI_File_write_at_all#2" io_sites) [E_BUFFER; E_COUNT; E_TYPE; E_TAG; E_COMM; E_RANK; E_REQUEST; E_ROOT; E_GROUP; E_OP; E_TOPOLOGY; E_DIMS; E_ARG; E_UNKNOWN; E_TRUNCATE; E_OTHER; E_INTERN; E_IN_STATUS; E_PENDING; E_ACCESS; E_AMODE; E_ASSERT; E_BAD_FILE; E_BASE; E_CONVERSION; E_DISP; E_DUP_DATAREP; E_FILE_EXISTS; E_FILE_IN_USE; E_FILE; E_INFO_KEY; E_INFO_NOKEY; E_INFO_VALUE; E_INFO; E_IO; E_KEYVAL; E_LOCKTYPE; E_NAME; E_NO_MEM; E_NOT_SAME; E_NO_SPACE; E_NO_SUCH_FILE; E_PORT; E_QUOTA; E_READ_ONLY; E_RMA_CONFLICT; E_RMA_SYNC; E_SERVICE; E_SIZE; E_SPAWN; E_UNSUPPORTED_DATAREP; E_UNSUPPORTED_OPERATION; E_WIN; E_RMA_RANGE; E_RMA_ATTACH; E_RMA_FLAVOR; E_RMA_SHARED; E_ANY_OTHER_CLASS] (up_set "write_NC")); [vm_compute; reflexivity | exact up_closed_write_NC | exact no_bad_link_above_write_NC].
+Qed.
 
 Lemma nsd_ncmpio_read_write__MPI_File_read_at_all_refuted : ~ no_silent_drop link_sites (site_of "ncmpio_file_io.c:ncmpio_read_write:MPI_File_read_at_all" io_sites).
 Proof.
@@ -605,10 +659,14 @@ Lemma nsd_ncmpio_read_write__MPI_File_write_at_partial : no_silent_drop_except l
 Proof. apply no_silent_drop_except_intro; vm_compute; reflexivity. Qed.
 
 Lemma nsd_fill_var_rec__MPI_File_write_at_all : no_silent_drop link_sites (site_of "ncmpio_fill.c:fill_var_rec:MPI_File_write_at_all" io_sites).
-Proof. apply (no_silent_drop_intro _ (reach_up link_sites (s_func (site_of "ncmpio_fill.c:fill_var_rec:MPI_File_write_at_all" io_sites)))); vm_compute; reflexivity. Qed.
+Proof.
+  apply (no_silent_drop_intro (site_of "ncmpio_fill.c:fill_var_rec:MPI_File_write_at_all" io_sites) (up_set "fill_var_rec")); [vm_compute; reflexivity | exact up_closed_fill_var_rec | exact no_bad_link_above_fill_var_rec].
+Qed.
 
 Lemma nsd_fill_var_rec__MPI_File_write_at : no_silent_drop link_sites (site_of "ncmpio_fill.c:fill_var_rec:MPI_File_write_at" io_sites).
-Proof. apply (no_silent_drop_intro _ (reach_up link_sites (s_func (site_of "ncmpio_fill.c:fill_var_rec:MPI_File_write_at" io_sites)))); vm_compute; reflexivity. Qed.
+Proof.
+  apply (no_silent_drop_intro (site_of "ncmpio_fill.c:fill_var_rec:MPI_File_write_at" io_sites) (up_set "fill_var_rec")); [vm_compute; reflexivity | exact up_closed_fill_var_rec | exact no_bad_link_above_fill_var_rec].
+Qed.
 
 Lemma nsd_fillerup_aggregate__MPI_File_write_at_all_refuted : ~ no_silent_drop link_sites (site_of "ncmpio_fill.c:fillerup_aggregate:MPI_File_write_at_all" io_sites).
 Proof. apply (refute_by_class (site_of "ncmpio_fill.c:fillerup_aggregate:MPI_File_write_at_all" io_sites) E_NO_SPACE). vm_compute. reflexivity. Qed.
@@ -617,7 +675,9 @@ Lemma nsd_fillerup_aggregate__MPI_File_write_at_all_drops : drops_classes (site_
 Proof. apply drops_classes_intro; vm_compute; reflexivity. Qed.
 
 Lemma nsd_fillerup_aggregate__MPI_File_write_at_all_partial : no_silent_drop_except link_sites (site_of "ncmpio_fill.c:fillerup_aggregate:MPI_File_write_at_all" io_sites) [E_BUFFER; E_COUNT; E_TYPE; E_TAG; E_COMM; E_RANK; E_REQUEST; E_ROOT; E_GROUP; E_OP; E_TOPOLOGY; E_DIMS; E_ARG; E_UNKNOWN; E_TRUNCATE; E_OTHER; E_INTERN; E_IN_STATUS; E_PENDING; E_ACCESS; E_AMODE; E_ASSERT; E_BAD_FILE; E_BASE; E_CONVERSION; E_DISP; E_DUP_DATAREP; E_FILE_EXISTS; E_FILE_IN_USE; E_FILE; E_INFO_KEY; E_INFO_NOKEY; E_INFO_VALUE; E_INFO; E_IO; E_KEYVAL; E_LOCKTYPE; E_NAME; E_NO_MEM; E_NOT_SAME; E_NO_SPACE; E_NO_SUCH_FILE; E_PORT; E_QUOTA; E_READ_ONLY; E_RMA_CONFLICT; E_RMA_SYNC; E_SERVICE; E_SIZE; E_SPAWN; E_UNSUPPORTED_DATAREP; E_UNSUPPORTED_OPERATION; E_WIN; E_RMA_RANGE; E_RMA_ATTACH; E_RMA_FLAVOR; E_RMA_SHARED; E_ANY_OTHER_CLASS] [].
-Proof. apply (no_silent_drop_except_nolinks_intro _ _ (reach_up link_sites (s_func (site_of "ncmpio_fill.c:fillerup_aggregate:MPI_File_write_at_all" io_sites)))); vm_compute; reflexivity. Qed.
+Proof.
+  apply (no_silent_drop_except_nolinks_intro (site_of "ncmpio_fill.c:fillerup_aggregate:MPI_File_write_at_all" io_sites) [E_BUFFER; E_COUNT; E_TYPE; E_TAG; E_COMM; E_RANK; E_REQUEST; E_ROOT; E_GROUP; E_OP; E_TOPOLOGY; E_DIMS; E_ARG; E_UNKNOWN; E_TRUNCATE; E_OTHER; E_INTERN; E_IN_STATUS; E_PENDING; E_ACCESS; E_AMODE; E_ASSERT; E_BAD_FILE; E_BASE; E_CONVERSION; E_DISP; E_DUP_DATAREP; E_FILE_EXISTS; E_FILE_IN_USE; E_FILE; E_INFO_KEY; E_INFO_NOKEY; E_INFO_VALUE; E_INFO; E_IO; E_KEYVAL; E_LOCKTYPE; E_NAME; E_NO_MEM; E_NOT_SAME; E_NO_SPACE; E_NO_SUCH_FILE; E_PORT; E_QUOTA; E_READ_ONLY; E_RMA_CONFLICT; E_RMA_SYNC; E_SERVICE; E_SIZE; E_SPAWN; E_UNSUPPORTED_DATAREP; E_UNSUPPORTED_OPERATION; E_WIN; E_RMA_RANGE; E_RMA_ATTACH; E_RMA_FLAVOR; E_RMA_SHARED; E_ANY_OTHER_CLASS] (up_set "fillerup_aggregate")); [vm_compute; reflexivity | exact up_closed_fillerup_aggregate | exact no_bad_link_above_fillerup_aggregate].
+Qed.
 
 Lemma nsd_fillerup_aggregate__MPI_File_write_at_refuted : ~ no_silent_drop link_sites (site_of "ncmpio_fill.c:fillerup_aggregate:MPI_File_write_at" io_sites).
 Proof. apply (refute_by_class (site_of "ncmpio_fill.c:fillerup_aggregate:MPI_File_write_at" io_sites) E_NO_SPACE). vm_compute. reflexivity. Qed.
@@ -626,7 +686,9 @@ Lemma nsd_fillerup_aggregate__MPI_File_write_at_drops : drops_classes (site_of "
 Proof. apply drops_classes_intro; vm_compute; reflexivity. Qed.
 
 Lemma nsd_fillerup_aggregate__MPI_File_write_at_partial : no_silent_drop_except link_sites (site_of "ncmpio_fill.c:fillerup_aggregate:MPI_File_write_at" io_sites) [E_BUFFER; E_COUNT; E_TYPE; E_TAG; E_COMM; E_RANK; E_REQUEST; E_ROOT; E_GROUP; E_OP; E_TOPOLOGY; E_DIMS; E_ARG; E_UNKNOWN; E_TRUNCATE; E_OTHER; E_INTERN; E_IN_STATUS; E_PENDING; E_ACCESS; E_AMODE; E_ASSERT; E_BAD_FILE; E_BASE; E_CONVERSION; E_DISP; E_DUP_DATAREP; E_FILE_EXISTS; E_FILE_IN_USE; E_FILE; E_INFO_KEY; E_INFO_NOKEY; E_INFO_VALUE; E_INFO; E_IO; E_KEYVAL; E_LOCKTYPE; E_NAME; E_NO_MEM; E_NOT_SAME; E_NO_SPACE; E_NO_SUCH_FILE; E_PORT; E_QUOTA; E_READ_ONLY; E_RMA_CONFLICT; E_RMA_SYNC; E_SERVICE; E_SIZE; E_SPAWN; E_UNSUPPORTED_DATAREP; E_UNSUPPORTED_OPERATION; E_WIN; E_RMA_RANGE; E_RMA_ATTACH; E_RMA_FLAVOR; E_RMA_SHARED; E_ANY_OTHER_CLASS] [].
-Proof. apply (no_silent_drop_except_nolinks_intro _ _ (reach_up link_sites (s_func (site_of "ncmpio_fill.c:fillerup_aggregate:MPI_File_write_at" io_sites)))); vm_compute; reflexivity. Qed.
+Proof.
+  apply (no_silent_drop_except_nolinks_intro (site_of "ncmpio_fill.c:fillerup_aggregate:MPI_File_write_at" io_sites) [E_BUFFER; E_COUNT; E_TYPE; E_TAG; E_COMM; E_RANK; E_REQUEST; E_ROOT; E_GROUP; E_OP; E_TOPOLOGY; E_DIMS; E_ARG; E_UNKNOWN; E_TRUNCATE; E_OTHER; E_INTERN; E_IN_STATUS; E_PENDING; E_ACCESS; E_AMODE; E_ASSERT; E_BAD_FILE; E_BASE; E_CONVERSION; E_DISP; E_DUP_DATAREP; E_FILE_EXISTS; E_FILE_IN_USE; E_FILE; E_INFO_KEY; E_INFO_NOKEY; E_INFO_VALUE; E_INFO; E_IO; E_KEYVAL; E_LOCKTYPE; E_NAME; E_NO_MEM; E_NOT_SAME; E_NO_SPACE; E_NO_SUCH_FILE; E_PORT; E_QUOTA; E_READ_ONLY; E_RMA_CONFLICT; E_RMA_SYNC; E_SERVICE; E_SIZE; E_SPAWN; E_UNSUPPORTED_DATAREP; E_UNSUPPORTED_OPERATION; E_WIN; E_RMA_RANGE; E_RMA_ATTACH; E_RMA_FLAVOR; E_RMA_SHARED; E_ANY_OTHER_CLASS] (up_set "fillerup_aggregate")); [vm_compute; reflexivity | exact up_closed_fillerup_aggregate | exact no_bad_link_above_fillerup_aggregate].
+Qed.
 
 Lemma nsd_hdr_fetch__MPI_File_read_at_all_1_refuted : ~ no_silent_drop link_sites (site_of "ncmpio_header_get.c:hdr_fetch:MPI_File_read_at_all#1" io_sites).
 Proof.
@@ -662,10 +724,14 @@ Lemma nsd_hdr_fetch__MPI_File_read_at_all_2_partial : no_silent_drop_except link
 Proof. apply no_silent_drop_except_intro; vm_compute; reflexivity. Qed.
 
 Lemma nsd_ncmpio_write_header__MPI_File_write_at_all_1 : no_silent_drop link_sites (site_of "ncmpio_header_put.c:ncmpio_write_header:MPI_File_write_at_all#1" io_sites).
-Proof. apply (no_silent_drop_intro _ (reach_up link_sites (s_func (site_of "ncmpio_header_put.c:ncmpio_write_header:MPI_File_write_at_all#1" io_sites)))); vm_compute; reflexivity. Qed.
+Proof.
+  apply (no_silent_drop_intro (site_of "ncmpio_header_put.c:ncmpio_write_header:MPI_File_write_at_all#1" io_sites) (up_set "ncmpio_write_header")); [vm_compute; reflexivity | exact up_closed_ncmpio_write_header | exact no_bad_link_above_ncmpio_write_header].
+Qed.
 
 Lemma nsd_ncmpio_write_header__MPI_File_write_at : no_silent_drop link_sites (site_of "ncmpio_header_put.c:ncmpio_write_header:MPI_File_write_at" io_sites).
-Proof. apply (no_silent_drop_intro _ (reach_up link_sites (s_func (site_of "ncmpio_header_put.c:ncmpio_write_header:MPI_File_write_at" io_sites)))); vm_compute; reflexivity. Qed.
+Proof.
+  apply (no_silent_drop_intro (site_of "ncmpio_header_put.c:ncmpio_write_header:MPI_File_write_at" io_sites) (up_set "ncmpio_write_header")); [vm_compute; reflexivity | exact up_closed_ncmpio_write_header | exact no_bad_link_above_ncmpio_write_header].
+Qed.
 
 Lemma nsd_ncmpio_write_header__MPI_File_write_at_all_2_refuted : ~ no_silent_drop link_sites (site_of "ncmpio_header_put.c:ncmpio_write_header:MPI_File_write_at_all#2" io_sites).
 Proof. apply (refute_by_class (site_of "ncmpio_header_put.c:ncmpio_write_header:MPI_File_write_at_all#2" io_sites) E_NO_SPACE). vm_compute. reflexivity. Qed.
@@ -674,7 +740,9 @@ Lemma nsd_ncmpio_write_header__MPI_File_write_at_all_2_drops : drops_classes (si
 Proof. apply drops_classes_intro; vm_compute; reflexivity. Qed.
 
 Lemma nsd_ncmpio_write_header__MPI_File_write_at_all_2_partial : no_silent_drop_except link_sites (site_of "ncmpio_header_put.c:ncmpio_write_header:MPI_File_write_at_all#2" io_sites) [E_BUFFER; E_COUNT; E_TYPE; E_TAG; E_COMM; E_RANK; E_REQUEST; E_ROOT; E_GROUP; E_OP; E_TOPOLOGY; E_DIMS; E_ARG; E_UNKNOWN; E_TRUNCATE; E_OTHER; E_INTERN; E_IN_STATUS; E_PENDING; E_ACCESS; E_AMODE; E_ASSERT; E_BAD_FILE; E_BASE; E_CONVERSION; E_DISP; E_DUP_DATAREP; E_FILE_EXISTS; E_FILE_IN_USE; E_FILE; E_INFO_KEY; E_INFO_NOKEY; E_INFO_VALUE; E_INFO; E_IO; E_KEYVAL; E_LOCKTYPE; E_NAME; E_NO_MEM; E_NOT_SAME; E_NO_SPACE; E_NO_SUCH_FILE; E_PORT; E_QUOTA; E_READ_ONLY; E_RMA_CONFLICT; E_RMA_SYNC; E_SERVICE; E_SIZE; E_SPAWN; E_UNSUPPORTED_DATAREP; E_UNSUPPORTED_OPERATION; E_WIN; E_RMA_RANGE; E_RMA_ATTACH; E_RMA_FLAVOR; E_RMA_SHARED; E_ANY_OTHER_CLASS] [].
-Proof. apply (no_silent_drop_except_nolinks_intro _ _ (reach_up link_sites (s_func (site_of "ncmpio_header_put.c:ncmpio_write_header:MPI_File_write_at_all#2" io_sites)))); vm_compute; reflexivity. Qed.
+Proof.
+  apply (no_silent_drop_except_nolinks_intro (site_of "ncmpio_header_put.c:ncmpio_write_header:MPI_File_write_at_all#2" io_sites) [E_BUFFER; E_COUNT; E_TYPE; E_TAG; E_COMM; E_RANK; E_REQUEST; E_ROOT; E_GROUP; E_OP; E_TOPOLOGY; E_DIMS; E_ARG; E_UNKNOWN; E_TRUNCATE; E_OTHER; E_INTERN; E_IN_STATUS; E_PENDING; E_ACCESS; E_AMODE; E_ASSERT; E_BAD_FILE; E_BASE; E_CONVERSION; E_DISP; E_DUP_DATAREP; E_FILE_EXISTS; E_FILE_IN_USE; E_FILE; E_INFO_KEY; E_INFO_NOKEY; E_INFO_VALUE; E_INFO; E_IO; E_KEYVAL; E_LOCKTYPE; E_NAME; E_NO_MEM; E_NOT_SAME; E_NO_SPACE; E_NO_SUCH_FILE; E_PORT; E_QUOTA; E_READ_ONLY; E_RMA_CONFLICT; E_RMA_SYNC; E_SERVICE; E_SIZE; E_SPAWN; E_UNSUPPORTED_DATAREP; E_UNSUPPORTED_OPERATION; E_WIN; E_RMA_RANGE; E_RMA_ATTACH; E_RMA_FLAVOR; E_RMA_SHARED; E_ANY_OTHER_CLASS] (up_set "ncmpio_write_header")); [vm_compute; reflexivity | exact up_closed_ncmpio_write_header | exact no_bad_link_above_ncmpio_write_header].
+Qed.
 
 Lemma nsd_ncmpio_write_numrecs__MPI_File_write_at_all_1_refuted : ~ no_silent_drop link_sites (site_of "ncmpio_sync.c:ncmpio_write_numrecs:MPI_File_write_at_all#1" io_sites).
 Proof. apply (refute_by_class (site_of "ncmpio_sync.c:ncmpio_write_numrecs:MPI_File_write_at_all#1" io_sites) E_NO_SPACE). vm_compute. reflexivity. Qed.
